@@ -38,9 +38,9 @@ fields(
     video_parameters="ref:dict:VideoParameters",
     quant_matrix="ref:lomap:int",
     quantizer="ref:lomap:int",
-    y_transform="ref:lomap:list:list:int",
-    c1_transform="ref:lomap:list:list:int",
-    c2_transform="ref:lomap:list:list:int",
+    y_transform="ref:lomap:grid",
+    c1_transform="ref:lomap:grid",
+    c2_transform="ref:lomap:grid",
     current_picture="ref:opaque:picture",
     _generic_sequence_matcher="ref:opaque:Matcher",
     _level_sequence_matcher="ref:opaque:Matcher",
